@@ -206,6 +206,10 @@ where
 
         // Main Loop
         let result = loop {
+            #[cfg(oxmpl_verif)]
+            if crate::verif::tick() {
+                break Err(PlanningError::Timeout);
+            }
             // 1. Check for timeout
             if start_time.elapsed() > timeout {
                 break Err(PlanningError::Timeout);
@@ -317,5 +321,16 @@ where
         // Hand the generator back so that later calls continue the same (seeded) stream.
         self.rng = Some(rng);
         result
+    }
+}
+
+#[cfg(oxmpl_verif)]
+impl<S: State + Clone, SP: StateSpace<StateType = S>, G: Goal<S>> RRTStar<S, SP, G> {
+    /// Read-only snapshot of the search tree: (state, parent index, cost) per node.
+    pub fn verif_tree(&self) -> Vec<(S, Option<usize>, f64)> {
+        self.tree
+            .iter()
+            .map(|n| (n.state.clone(), n.parent_index, n.cost))
+            .collect()
     }
 }
